@@ -72,7 +72,9 @@ def serve_sequence_tie(ctx):
 def run(ctx):
     serve_sequence_tie(ctx)
     ctx.lean_check(MODULES, THEOREMS)
-    env = {"VERIF_N": ctx.scale(400, 6000), "VERIF_OPS": 40}
+    import os
+    env = {"VERIF_N": ctx.scale(400, 6000), "VERIF_OPS": 40,
+           "VERIF_CORPUS": os.path.join(core.ROOT, "corpus", "C04")}
     if ctx.replay:
         env["VERIF_REPLAY"] = ctx.replay_line_file()
     rc, out, outdir = ctx.go_test("./server/", OVERLAY, "^TestVerifC04$", env=env, timeout=1500)
